@@ -1,3 +1,6 @@
+(* ADDED IN THE THIRD ROUND: C06_reader_agrees_with_api_state (core_open over the four files reconstructs info/has/get in every reachable state);
+   C06_source_constants (layout constants parsed from /repo/src on every run).
+   ---- header of the earlier rounds: ---- *)
 (* C06 — storage files follow the JavaScript on-disk layout (pinned statements; proofs in OplogFacts.v,
    BitfieldFacts.v). What is proved: every record the crate writes decodes back to itself under the
    layout rules — header (either slot), oplog entries with every combination of the flag bits 2/4/8,
@@ -10,6 +13,7 @@
 From HC Require Import Base Codec Crypto Storage Bitfield Oplog Merkle SrcConsts ConstTie.
 From HC Require Import Base Codec CodecFacts Crypto Storage Bitfield Oplog OplogFacts.
 From HC Require Merkle.
+From HC Require Import Core Refine ClearRefine Unified1 Unified3.
 
 Theorem C06_header_roundtrip : forall h r, header_ok h = true -> dec_header (enc_header h ++ r) = Ok (h, r).
 Proof. exact dec_enc_header. Qed.
@@ -65,6 +69,27 @@ Theorem C06_source_constants :
      tied src_LEADER_SIZE (len fr - len payload) /\ tied src_CRC_SIZE (len (le_bytes 4 (cr_crc cr [])))).
 Proof. exact source_constants_are_the_models. Qed.
 
+Theorem C06_reader_agrees_with_api_state :
+  forall cr : crypto,
+         crc_ok cr ->
+         (forall x : bytes, Datatypes.length (cr_hash cr x) = 32%nat) ->
+         (forall x : bytes, all_zero (cr_hash cr x) = false) ->
+         (forall x : bytes, bytes_ok (cr_hash cr x) = true) ->
+         forall (c : core) (d : disk) (bs : list bytes) (cl : N -> bool),
+         FInv cr c d bs cl ->
+         exists c' : core,
+           core_open cr None true d = (d, [], Ok c') /\
+           FInv cr c' d bs cl /\
+           c_keypair c' = c_keypair c /\
+           core_info c' = core_info c /\
+           (forall i : N, core_has c' i = core_has c i) /\
+           (forall (i : N) (j : list sop) (ev : list event),
+            snd (core_get i c' {| w_disk := d; w_journal := j; w_events := ev |}) =
+            snd (core_get i c {| w_disk := d; w_journal := j; w_events := ev |}) /\
+            snd (fst (core_get i c' {| w_disk := d; w_journal := j; w_events := ev |})) =
+            snd (fst (core_get i c {| w_disk := d; w_journal := j; w_events := ev |}))).
+Proof. exact reopen_observations_U. Qed.
+
 Print Assumptions C06_header_roundtrip.
 Print Assumptions C06_entry_roundtrip.
 Print Assumptions C06_entry_encodes.
@@ -74,3 +99,4 @@ Print Assumptions C06_scan_reads_js_entries.
 Print Assumptions C06_trailing_partials_dropped.
 Print Assumptions C06_slot_rule.
 Print Assumptions C06_source_constants.
+Print Assumptions C06_reader_agrees_with_api_state.
